@@ -86,4 +86,16 @@ def Rel.PayReady (s : SqlState) : Rel → Prop
   | .select oid _ _ _ _ _ skipTo _ target =>
       (s.payload oid = none ∧ Rel.PayReady s skipTo) ∨ (∃ own, s.payload oid = some own ∧ PayDom own target.columns)
 
+/-- Every join node (outside payload holders) carries resolved common columns: decidable. -/
+def Rel.joinsResolved : Rel → Bool
+  | .leaf .. => true
+  | .unary _ t _ => Rel.joinsResolved t
+  | .binary op l r _ => Rel.joinsResolved l && Rel.joinsResolved r &&
+      (match op with
+       | .join j => j.resolved
+       | _ => true)
+  | .mat .. => true
+  | .transfer .. => true
+  | .select _ _ _ _ _ _ skipTo _ _ => Rel.joinsResolved skipTo
+
 end DafRel
